@@ -464,13 +464,14 @@ PROPS = {
     ),
     "C03": dict(
         lean="AnyDB.Props.C03",
+        lean_extra=["AnyDB.Props.C03Write"],
         runs=[
             Run("vec", "plain", ["--mode", "plain"], (168, 50), (2800, 160), proj_vec, ["C03", "panic"], vec_features),
             Run("vec", "refusals", ["--mode", "refusals"], (56, 40), (700, 100), proj_vec, ["C03", "panic"], vec_features),
         ],
         rule=VEC_RULE,
         assumptions=["pco / lz4_flex / zstd round-trip every page (sampled here, never proved)", "regions behave like independent byte vectors (C01)"],
-        level_text="Lean 4 theorems over the executable model of the raw and compressed vectors (Model/Vec.lean): push appends exactly one element and touches no other index; an accepted update shows the new value at its index — stored, buffered or previously deleted — and touches no other; delete hides exactly its index; truncate cuts the length to min(n, len) for both kinds; a checked push at the wrong index is refused with the state unchanged; stamps change only through stamped writes. The refinement of write() (three regimes / overlay), reset and re-import to the reference vector is validated by the lock-step correspondence: 14 real format×type vectors = compiled model = independent reference list after every request; their Lean refinement theorems are not finished (named in Props/C03.lean).",
+        level_text="Lean 4 theorems over the executable model of the raw and compressed vectors (Model/Vec.lean): push appends exactly one element and touches no other index; an accepted update shows the new value at its index — stored, buffered or previously deleted — and touches no other; delete hides exactly its index; truncate cuts the length to min(n, len) for both kinds; a checked push at the wrong index is refused with the state unchanged; stamps change only through stamped writes. The write step of the raw formats is proved too (Props/C03Write.lean): after a successful write() every index reads exactly what it read before — buffered elements are in the region, overlaid ones stored in place, deleted ones still deleted (C03_write_preserves, for every state whose stored length lies inside the region and whose overlay is a sorted map over stored slots; that invariant holds initially and is kept by push, update, delete, truncate: updInv_*). The compressed write() (page regimes) rests on C07's lossless theorems; reset and re-import are validated by the lock-step correspondence only: 14 real format×type vectors = compiled model = independent reference list after every request.",
         level_note="Trusted: Lean kernel + standard axioms; hand-written model tied to /repo by the differential run; compressor libraries; harness glue. Two defects of the pinned tree found by this check were repaired by fix: commits (update of a deleted buffered element; compressed reset+write left the stored pages) — known_findings.json.",
         technique="Lean 4 proof of the per-operation laws of the vector model + lock-step correspondence against real vectors of all five formats and a reference-list oracle",
     ),
@@ -686,6 +687,11 @@ def run_property(ctx, cfg, replay):
     extract_broken = rc != 0
     # 2. the proof check
     proof_ok, broken, build_out = proof_check(cfg["lean"], ctx.log)
+    for extra in cfg.get("lean_extra", []):
+        ok2, broken2, out2 = proof_check(extra, ctx.log)
+        proof_ok = proof_ok and ok2
+        broken += broken2
+        build_out += out2
     driver_ok = os.path.exists(DRIVER_BIN)
     if not proof_ok:
         # is the driver still buildable on its own?
@@ -697,6 +703,11 @@ def run_property(ctx, cfg, replay):
     audit_ok, problems, axioms = (True, [], {})
     if proof_ok:
         audit_ok, problems, axioms = audit(cfg["lean"], ctx.log, thorough=(tier == "thorough"))
+        for extra in cfg.get("lean_extra", []):
+            ok2, problems2, axioms2 = audit(extra, ctx.log, thorough=(tier == "thorough"))
+            audit_ok = audit_ok and ok2
+            problems += problems2
+            axioms.update(axioms2)
         for p in problems:
             ctx.log("AUDIT " + p)
     # 4. harness
@@ -804,6 +815,9 @@ def run_property(ctx, cfg, replay):
     # 6. verdict
     thms = theorems_in(cfg["lean"])
     dep_mods = [m for m in lean_deps(cfg["lean"]) if ".Lemmas." in m or ".Props." in m]
+    for extra in cfg.get("lean_extra", []):
+        thms += theorems_in(extra)
+        dep_mods += [m for m in lean_deps(extra) if (".Lemmas." in m or ".Props." in m) and m not in dep_mods]
     lemma_count = sum(len(theorems_in(m)) for m in dep_mods)
     obligations = lemma_count
     discharged = obligations if proof_ok and audit_ok else 0
@@ -818,7 +832,7 @@ def run_property(ctx, cfg, replay):
         "discharged": discharged,
         "checker_cmd": f"cd lean && lake build {cfg['lean']} anydb_driver && lake env lean <#print axioms of every theorem>" + (" && lake env leanchecker " + cfg["lean"] if tier == "thorough" else ""),
         "trusted_base": TRUST_COMMON + cfg.get("assumptions", []),
-        "theorems": {t: {"axioms": axioms.get(t, []), "statement_sha": statement_hashes(cfg["lean"]).get(t.split(".")[-1], "")} for t in thms},
+        "theorems": {t: {"axioms": axioms.get(t, []), "statement_sha": {**statement_hashes(cfg["lean"]), **{k: v for e in cfg.get("lean_extra", []) for k, v in statement_hashes(e).items()}}.get(t.split(".")[-1], "")} for t in thms},
         "lemma_modules": dep_mods,
         "evaluations": evaluations + corpus_cases,
         "requests": requests,
